@@ -700,6 +700,65 @@ pub fn run(tier: &str) -> i32 {
     });
     let mut all = Acc::merge_all(accs);
     all.merge(controls);
+    // a parser that holds an expectation without a JSON form (u128) or a rejecting validator: an altered token
+    // must still be refused with an authentication / format error - nothing about the claims may be looked at,
+    // serialised or run before the token is authentic
+    {
+        use crate::adapter::{ClaimSpec, Form, PEvent, POp};
+        let units: Vec<(Proto, Layer)> = Proto::ALL.iter().flat_map(|p| [Layer::Generic, Layer::Prelude].into_iter().map(move |l| (*p, l))).collect();
+        let accs = par_units(&units, |(p, l)| {
+            let mut acc = Acc::default();
+            let Some((_, bs)) = all_bases.iter().find(|(q, _)| q == p) else { return acc };
+            let Some(base) = bs.first() else { return acc };
+            let mut ms = mutants(Family::BitFlip, *p, &base.token, &base.siblings);
+            ms.truncate(96);
+            ms.extend(mutants(Family::SigRange, *p, &base.token, &base.siblings).into_iter().take(8));
+            ms.extend(mutants(Family::Prefix, *p, &base.token, &base.siblings).into_iter().rev().take(8));
+            let key = crate::b64::unhex(&base.case.pk_hex).unwrap_or_default();
+            let configs: Vec<(&str, Vec<POp>)> = vec![
+                ("an expectation without a JSON form", vec![POp::Check(ClaimSpec { key: "big".into(), value: serde_json::Value::Null, form: Form::Native(11) })]),
+                ("a rejecting validator", vec![POp::Validate("data".into(), 3)]),
+                ("both", vec![POp::Validate("data".into(), 3), POp::Check(ClaimSpec { key: "big".into(), value: serde_json::Value::Null, form: Form::Native(11) })]),
+            ];
+            for (cname, cfg_ops) in &configs {
+                crate::adapter::reset_verdicts();
+                crate::adapter::set_verdict(3, crate::adapter::Verdict::Reject);
+                let mut ops = cfg_ops.clone();
+                if let Some(f) = &base.case.footer {
+                    ops.push(POp::Footer(f.clone()));
+                }
+                if let (Some(a), true) = (&base.case.assertion, p.has_assertion()) {
+                    ops.push(POp::Assertion(a.clone()));
+                }
+                ops.extend((0..ms.len()).map(|i| POp::Parse(i, 0)));
+                let _ = crate::adapter::take_calls();
+                let ev = crate::adapter::parse_history(*p, *l, false, &[key.clone()], &ms, &ops);
+                crate::adapter::reset_verdicts();
+                let parsed: Vec<&PEvent> = ev.iter().filter(|e| matches!(e, PEvent::Parsed(..))).collect();
+                for (i, e) in parsed.iter().enumerate() {
+                    let PEvent::Parsed(o, calls) = e else { continue };
+                    acc.executions += 1;
+                    acc.impl_calls += 1;
+                    acc.choice_points += 1;
+                    let bad = match o {
+                        Out::Err(crate::adapter::ErrClass::Other(_)) if calls.is_empty() => None,
+                        Out::Err(crate::adapter::ErrClass::Other(_)) => Some("a validator ran on an altered token".to_string()),
+                        other => Some(format!("{} instead of an authentication / format error", other.short())),
+                    };
+                    match bad {
+                        None => acc.bump("configured-parser:altered-token-refused-early"),
+                        Some(w) => acc.violate(
+                            format!("C03|{}|{}|configured-parser|{}", p.name(), l.name(), cname),
+                            format!("a parser holding {} is shown an altered token ({}): {}", cname, ms.get(i).map_or("", |m| m.as_str()).chars().take(60).collect::<String>(), w),
+                            json!({"issue": base.case, "issued_token": base.token, "family": "configured-parser", "presentation": Presentation::of(&base.case, ms.get(i).map_or("", |m| m.as_str()))}),
+                        ),
+                    }
+                }
+            }
+            acc
+        });
+        all.merge(Acc::merge_all(accs));
+    }
     all.states = all.distinct.len() as u64;
     let bases_n: usize = all_bases.iter().map(|(_, b)| b.len()).sum();
     let extra = json!({
